@@ -257,10 +257,16 @@ export class RangeListManager {
         const item = items[i]!
         const index = indexes === null ? i : indexes[i]!
         const oldIndex = oldIndexes === null ? i : oldIndexes[i]!
-        const u =
-          updatePathTree === true || updatePathTree === undefined
-            ? updatePathTree
-            : (updatePathTree as { [key: string]: UpdatePathTreeNode })[index]
+        // when an object is iterated and a key was added or removed before this position,
+        // the node is re-used for another key: nothing of its item can be considered unchanged
+        let u: UpdatePathTreeRoot
+        if (index !== oldIndex) {
+          u = true
+        } else if (updatePathTree === true || updatePathTree === undefined) {
+          u = updatePathTree
+        } else {
+          u = (updatePathTree as { [key: string]: UpdatePathTreeNode })[index]
+        }
         updateListItem(
           item,
           index,
